@@ -67,7 +67,7 @@ def run_property(prop, tier, prog=None, write=True):
 def changed_unproven(prog):
     """Qualified names of functions whose source differs from the confirmed baseline and which the prover did not
     show equivalent to it (sa/equiv.py)."""
-    return set(q for k, q, _ in getattr(prog, "canon_log", []) if k == "E-no")
+    return set(q for k, q, _ in getattr(prog, "canon_log", []) if k in ("E-no", "E~"))
 
 
 def main(argv):
